@@ -182,8 +182,11 @@ def check_case(assign, acc):
     acc.count("evaluations")
     spaces = _namespaces(prob)
 
-    def viol(sub, what):
-        acc.violation("%s|%s" % (sub, lab), what, case)
+    def viol(sub, what, *items):
+        # root-cause label: only the adversarial names carried by the items involved
+        names = {_nm(x) for x in items}
+        inv = tuple(e for e in assign if e[1] in names) if items else assign
+        acc.violation("%s|%s" % (sub, _label(inv)), what, case)
 
     # ---------------- PDDL
     mangled_p = mangled_a = 0
@@ -207,27 +210,27 @@ def check_case(assign, acc):
                 try:
                     n = w.get_pddl_name(x)
                 except UPException as e:
-                    viol("pddl:total", "%s %r has no PDDL name after writing (%s)" % (label, _nm(x), e))
+                    viol("pddl:total", "%s %r has no PDDL name after writing (%s)" % (label, _nm(x), e), x)
                     continue
                 is_var = isinstance(x, (up.model.Parameter, up.model.Variable))
                 if n.lstrip("?") != _nm(x).lower():
                     mangled_p += 1
                 if not (PDDL_VAR if is_var else PDDL_NAME).match(n):
-                    viol("pddl:valid", "%s %r is written as %r, not a PDDL identifier" % (label, _nm(x), n))
+                    viol("pddl:valid", "%s %r is written as %r, not a PDDL identifier" % (label, _nm(x), n), x)
                 if not is_var and n.lower() in kws:
-                    viol("pddl:keyword", "%s %r is written as the keyword %r" % (label, _nm(x), n))
+                    viol("pddl:keyword", "%s %r is written as the keyword %r" % (label, _nm(x), n), x)
                 k = n.lower()
                 if k in names and names[k] != x:
-                    viol("pddl:injective", "%s: %r and %r are both written %r/%r" % (label, _nm(names[k]), _nm(x), w.get_pddl_name(names[k]), n))
+                    viol("pddl:injective", "%s: %r and %r are both written %r/%r" % (label, _nm(names[k]), _nm(x), w.get_pddl_name(names[k]), n), names[k], x)
                 names[k] = x
                 try:
                     back = w.get_item_named(n)
                     if not (back == x):
-                        viol("pddl:inverse", "get_item_named(get_pddl_name(%r)=%r) returns %r" % (_nm(x), n, _nm(back)))
+                        viol("pddl:inverse", "get_item_named(get_pddl_name(%r)=%r) returns %r" % (_nm(x), n, _nm(back)), x, back)
                     elif w.get_pddl_name(back) != n:
-                        viol("pddl:inverse", "get_pddl_name(get_item_named(%r)) = %r" % (n, w.get_pddl_name(back)))
+                        viol("pddl:inverse", "get_pddl_name(get_item_named(%r)) = %r" % (n, w.get_pddl_name(back)), x)
                 except UPException as e:
-                    viol("pddl:inverse", "get_item_named(%r) raises %s" % (n, e))
+                    viol("pddl:inverse", "get_item_named(%r) raises %s" % (n, e), x)
     # ---------------- ANML
     try:
         a = ANMLWriter(prob)
@@ -244,17 +247,17 @@ def check_case(assign, acc):
         for label, items in spaces:
             for x in items:
                 if x not in mapping:
-                    viol("anml:total", "%s %r has no ANML name after writing" % (label, _nm(x)))
+                    viol("anml:total", "%s %r has no ANML name after writing" % (label, _nm(x)), x)
                     continue
                 n = mapping[x]
                 if n != _nm(x):
                     mangled_a += 1
                 if not ANML_NAME.match(n):
-                    viol("anml:valid", "%s %r is written as %r, not an ANML identifier" % (label, _nm(x), n))
+                    viol("anml:valid", "%s %r is written as %r, not an ANML identifier" % (label, _nm(x), n), x)
                 if n in aw.ANML_KEYWORDS:
-                    viol("anml:keyword", "%s %r is written as the keyword %r" % (label, _nm(x), n))
+                    viol("anml:keyword", "%s %r is written as the keyword %r" % (label, _nm(x), n), x)
                 if n in seen and not (seen[n] == x):
-                    viol("anml:injective", "%r and %r are both written %r" % (_nm(seen[n]), _nm(x), n))
+                    viol("anml:injective", "%r and %r are both written %r" % (_nm(seen[n]), _nm(x), n), seen[n], x)
                 seen[n] = x
     if mangled_p or mangled_a:
         acc.count("nontrivial")
